@@ -61,7 +61,7 @@ Definition is_unk (t : term) : bool := match t with TL [TS s] => String.eqb s "u
 (* a mutated heap document may need exp for a triple the harness did not tabulate: detected by
    running the model with two different defaults for missing entries *)
 Definition oracle_missing (i : term) : bool :=
-  String.eqb (i_kind i) "mut" &&
+  String.eqb (i_kind i) "mut" && (String.eqb (i_fmt i) "heap" || String.eqb (i_fmt i) "fixed") &&
   negb (term_eqb (enc (parse_data (oracle_dflt 0 (gn i 4)) (i_data i))) (enc (parse_data (oracle_dflt 1 (gn i 4)) (i_data i)))).
 
 Definition cls_C14 (i : term) : list Z :=
@@ -82,9 +82,7 @@ Fixpoint vals_close (tol : bool) (a b : list sample) : bool :=
   end.
 
 Definition eqv_C14 (i m o : term) : bool :=
-  match cls_C14 i with
-  | _ :: _ => true
-  | [] =>
+  if i_proto_ok i || is_unk m || oracle_missing i then true else
       match m, o with
       | TL [TS "ok"; pm], TL [TS "ok"; po] =>
           if i_approx i then
@@ -92,8 +90,7 @@ Definition eqv_C14 (i m o : term) : bool :=
             term_eqb (of_profile (strip_vals a)) (of_profile (strip_vals b)) && vals_close true (p_sample a) (p_sample b)
           else term_eqb pm po
       | _, _ => term_eqb m o
-      end
-  end.
+      end.
 
 Definition spec_of (i : term) (p : profile) : bool :=
   let f := i_fmt i in let tol := i_approx i in let d := i_doc i in
@@ -118,14 +115,10 @@ Definition spec_of (i : term) (p : profile) : bool :=
   else false.
 
 Definition spec_C14 (i o : term) : bool :=
-  match cls_C14 i with
-  | _ :: _ => true
-  | [] =>
-      if String.eqb (i_kind i) "mut" then true
-      else match o with
-           | TL [TS "ok"; po] => spec_of i (profile_of po)
-           | _ => false
-           end
-  end.
+  if String.eqb (i_kind i) "mut" || i_proto_ok i then true
+  else match o with
+       | TL [TS "ok"; po] => spec_of i (profile_of po)
+       | _ => false
+       end.
 
 Definition judge_C14 := judge_all run_C14 eqv_C14 spec_C14 cls_C14 0%Z.
